@@ -2,6 +2,7 @@ import Modbus.Driver.JudgePacket
 import Modbus.Driver.Regs
 import Modbus.Driver.Split
 import Modbus.Driver.Extract
+import Modbus.Driver.Xf
 import Modbus.Driver.Client
 import Modbus.Driver.Asm
 import Modbus.Driver.Conc
@@ -48,6 +49,9 @@ def dispatch (prop : String) (ts : List String) : Option Family :=
           let m := op.modelOut
           some { modelOut := m, kf := op.kf prop m, expect := op.judge prop, kind := "extract" }
         | none =>
+          match parseXfOp ts with
+          | some op => some { modelOut := op.modelOut, kf := none, expect := op.judge prop, kind := "xf" }
+          | none =>
           match parseDorOp ts with
           | some op => some { modelOut := op.modelOut, kf := op.kf prop, expect := op.judge prop, kind := "dor:" ++ (ts.getD 1 "?") }
           | none =>
